@@ -162,3 +162,73 @@ def match_cases(ctx, li, spec, ops, opdecls, lang, trees, ninputs):
             ctx.fail(f"`{X.tree_text(a)}`.match(`{X.tree_text(b)}`) = {got}; same shape/operators/source types: {want}",
                 {"check": "expr-match"}, {"lang": spec.to_json(), "opdecls": [[n, s] for n, s in opdecls],
                     "a": X.tree_text(a), "b": X.tree_text(b), "want": want, "inputs": ninputs})
+
+
+# -- C09: the add_from calls made by add_expr on typed expressions ------------------------------
+
+class FromRecorder:
+    """records TransformationGraph.add_from calls with nodes numbered by first appearance"""
+    def __init__(self):
+        self.calls = []
+        self.nodes = []
+
+    def idx(self, n):
+        for i, m in enumerate(self.nodes):
+            if m == n:
+                return i
+        self.nodes.append(n)
+        return len(self.nodes) - 1
+
+    def __enter__(self):
+        from transforge.graph import TransformationGraph
+        self.cls = TransformationGraph
+        self.orig = TransformationGraph.add_from
+        rec = self
+
+        def add_from(g, a, b, recursive=False):
+            rec.calls.append((rec.idx(a), rec.idx(b), bool(recursive)))
+            return rec.orig(g, a, b, recursive)
+        TransformationGraph.add_from = add_from
+        return self
+
+    def __exit__(self, *a):
+        self.cls.add_from = self.orig
+
+
+def closure_cases(ctx, check_recorded):
+    """expression graphs (first-order and higher-order) built by add_expr with dependencies on"""
+    from rdflib import BNode
+    from transforge.graph import TransformationGraph
+    from transforge.namespace import TF
+    from transforge import expr as E
+    rng = ctx.rng
+    nlang = 3 if ctx.tier == "quick" else 15
+    for li in range(nlang):
+        spec = G.gen_lang(rng, max_base=5, max_ops=2, max_arity=2)
+        ops = spec.build()
+        opdecls = X.gen_operators(rng, spec)
+        try:
+            lang, operators = X.build_typed_language(spec, ops, opdecls)
+        except Exception:  # noqa
+            continue
+        ninputs = rng.randint(0, 2)
+        trees = X.gen_typed_trees(rng, lang, spec, opdecls, ninputs, rounds=3, per_round=8 if ctx.tier == "quick" else 20, p_ann=0.0)
+        for tree in trees:
+            if X.napps(tree) < 2:
+                continue
+            text = X.tree_text(tree)
+            try:
+                e = lang.parse(text, *[E.Source() for _ in range(ninputs)])
+                e.fix()
+                g = TransformationGraph(lang, with_dependencies=True, with_noncanonical_types=True)
+                with FromRecorder() as rec:
+                    g.add_expr(e, BNode())
+            except Exception as ex:  # noqa
+                ctx.count("closure_expr_skipped_" + type(ex).__name__)
+                continue
+            frm = {(rec.idx(s), rec.idx(o)) for s, o in g.subject_objects(TF["from"])}
+            dep = {(rec.idx(s), rec.idx(o)) for s, o in g.subject_objects(TF.depends)}
+            check_recorded(ctx, rec.calls, frm, dep, len(rec.nodes), "add_expr",
+                {"lang": spec.to_json(), "opdecls": [[n, s] for n, s in opdecls], "text": text, "inputs": ninputs,
+                 "calls": [list(c) for c in rec.calls], "n": len(rec.nodes)})
+            ctx.count("closure_expr_graphs")
